@@ -73,6 +73,7 @@ class PBuilt(Built):
         else:
             ds = factory(f, defaults=dict(zip(pnames, nodes)), **kw)
         ds.__qualname__ = name
+        self.ds[name] = ds
         for alias, impl in d.get("overloads", []):
             if isinstance(impl, dict) and impl.get("k") == "ovfn":
                 g = self._fn(impl, [self.node(p) for p in impl["params"]], True)
